@@ -13,7 +13,7 @@ THEOREMS = ['WV.C11.interleave4_get', 'WV.C11.colifilt1_raises_iff', 'WV.C11.inv
             'WV.C03T.reflect_eq_symIdx', 'WV.C03T.symm_pad_1d_eq', 'WV.C03T.symmPad_eq_gather',
             'WV.C11P.invJ1_eq_ref', 'WV.C11P.invJ2_eq_ref', 'WV.C11P.crop_rect', 'WV.C11P.go_eq_ref', 'WV.C11P.dtcwt_inverse_eq_ref',
             'WV.C11Z.invJ2_absent_high_eq_zeros', 'WV.C11Z.invJ2_absent_low_eq_zeros',
-            'WV.C11Z.invJ1_absent_high_eq_zeros', 'WV.C11Z.invJ1_absent_low_eq_zeros', 'WV.C04Z.cropToHighs_gen']
+            'WV.C11Z.invJ1_absent_high_eq_zeros', 'WV.C11Z.invJ1_absent_low_eq_zeros', 'WV.C04Z.cropToHighs_gen', 'WV.C10Z.dtcwt_glue_gen', 'WV.C10Z.forward_keeps_no_state_gen']
 OPS = ['colifilt', 'rowifilt', 'c2q', 'inv_j1', 'inv_j2plus', 'DTCWTInverse']
 KF_MID = 'C11-absent-level-after-extension'
 
@@ -46,6 +46,37 @@ def oracle_inv(ck, b, s, bt, qt, low, highs, named):
                 ck.fail(desc + ': slice (%d,%d) differs from the reference inverse: %s' % (n, c, why), replay); return 'diff'
     ck.oracle_ok((len(highs), tuple(low.shape), named if isinstance(named, str) else 'int'), group='inv',
                  sample={'oracle': 'dtcwt.Transform2d.inverse', 'J': len(highs), 'low_shape': list(low.shape), 'filters': named, 'out_shape': list(got[0].shape)})
+    return None
+
+
+def oracle_inv_special(ck, b, s, J, shape, val, where):
+    """a pyramid with ONE non-finite band-pass coefficient (one orientation, real or imaginary part): wherever the reference inverse of
+    that pyramid is finite, so is the library's, with the same value"""
+    import torch
+    from pytorch_wavelets import DTCWTForward, DTCWTInverse
+    lev, o, ri = where
+    fw = DTCWTForward(biort=b, qshift=s, J=J).double(); iv = DTCWTInverse(biort=b, qshift=s).double()
+    x = gen.float_tensor(ck.nprng, (1, 1) + tuple(shape))
+    with torch.no_grad():
+        yl, yh = fw(torch.tensor(x, dtype=torch.float64))
+        yh = [h.clone() for h in yh]
+        p, q = yh[lev].shape[3] // 2, yh[lev].shape[4] // 2
+        yh[lev][0, 0, o, p, q, ri] = val
+        got = iv((yl, yh))[0, 0].numpy()
+    desc = 'DTCWTInverse(%s/%s) of a %d-level pyramid of a %s image with %r in orientation %d (part %d) of level %d at (%d, %d)' % (b, s, J, tuple(shape), val, o, ri, lev + 1, p, q)
+    replay = {'oracle': 'inv-special', 'b': b, 's': s, 'J': J, 'shape': list(shape), 'val': repr(val), 'where': list(where), 'note': 'pyramid drawn from the check PRNG'}
+    with np.errstate(all='ignore'):
+        ref = OD.inverse(yl[0, 0].numpy(), [OD.from_canon(h[0, 0].numpy()) for h in yh], b, s)
+    if got.shape != ref.shape:
+        ck.fail(desc + ': shape %s, reference %s' % (got.shape, ref.shape), replay); return 'shape'
+    m = np.isfinite(ref)
+    sc = max(1.0, float(np.max(np.abs(ref[m]))) if m.any() else 1.0)
+    bad = m & ~(np.isfinite(got) & (np.abs(np.where(np.isfinite(got), got, 0.0) - np.where(m, ref, 0.0)) <= 1e-5 * sc))
+    if bad.any():
+        idx = tuple(int(v[0]) for v in np.nonzero(bad))
+        ck.fail(desc + ': pixel %s is %r where the reference inverse of the same pyramid is finite (%r) [%d such pixels]' % (idx, float(got[idx]), float(ref[idx]), int(bad.sum())), replay)
+        return 'leak'
+    ck.oracle_ok(('special', b, s, J, repr(val), lev, o), group='inv-special', sample={'what': desc, 'non_finite_in_reference': int((~m).sum())})
     return None
 
 
@@ -105,6 +136,11 @@ def oracle(ck, extended):
         zs = [j for j in range(J) if rng.random() < 0.5] or [rng.randrange(J)]
         highs_z = [np.zeros_like(h) if j in zs else h for j, h in enumerate(highs)]
         rt.guard(ck, oracle_inv, ck, b, s, bt, qt, low if rng.random() < 0.8 else np.zeros_like(low), highs_z, '%s/%s zero levels %s' % (b, s, [j + 1 for j in zs]))
+    # ONE non-finite coefficient in one orientation: the other sub-images of the quad must not see it
+    for (b, s) in (rng.sample(pairs, 4) if q else pairs):
+        for val in (float('nan'), float('inf')):
+            J = rng.randint(1, 2)
+            rt.guard(ck, oracle_inv_special, ck, b, s, J, (rng.randint(12, 20) * 2, rng.randint(12, 20) * 2), val, (rng.randrange(J), rng.randrange(6), rng.randrange(2)))
     for (H, W, J) in [(2, 2, 3), (4, 4, 4), (3, 5, 4), (8, 8, 5), (6, 2, 3)]:      # deeper than the image is large: several 1x1 levels
         b, s = rng.choice(pairs); bt, qt = OD.lib_tables(b, s)
         (lh, lw), hsz = pyramid_shapes(H, W, J)
@@ -213,7 +249,9 @@ def replay(ck, path):
     if not f:
         print('replay file names no failing input: %s' % d.get('broken_obligations'))
         return 1
-    if f['oracle'] == 'inv':
+    if f['oracle'] == 'inv-special':
+        oracle_inv_special(ck, f['b'], f['s'], f['J'], tuple(f['shape']), float(f['val']), tuple(f['where']))
+    elif f['oracle'] == 'inv':
         bt = tuple(arr_from(a) for a in f['bt']); qt = tuple(arr_from(a) for a in f['qt'])
         oracle_inv(ck, bt, qt, bt, qt, arr_from(f['low']), [arr_from(h) for h in f['highs']], f['named'])
     else:
